@@ -719,12 +719,19 @@ def gen_world(pid, tier, seed, scale=1):
 
 
 def shrink_world(pid, hist, fixed=True):
-    """delta debugging on the op list, keeping `world_violation(pid, .)`"""
+    """delta debugging on the op list, keeping `world_violation(pid, .)` of the same kind (a shorter history
+    that fails for another reason - e.g. because removing a registration makes it panic - is not a reduction)"""
+    def kind(v):
+        return None if v is None else v.split(" (op ")[0][:60]
+
+    want = kind(world_violation(pid, run_world([list(hist)], fixed)[0]))
+
     def fails(h):
         if not h:
             return False
         r = run_world([h], fixed)[0]
-        return world_violation(pid, r) is not None
+        v = world_violation(pid, r)
+        return v is not None and (want is None or kind(v) == want)
 
     cur = list(hist)
     n = 2
